@@ -9,6 +9,13 @@
 (* none / err, `nt`: time of the yielded item) and with the next snapshot  *)
 (* of the same run (`has_next`, `n_time`, `n_dt`, `n_ym`, `n_vlen`).       *)
 (*                                                                         *)
+(* When the run was recorded with the derivative-evaluation times (`ets`:  *)
+(* the times at which the user's function was called during this step()    *)
+(* call, in order), they must be exactly the design's EvalPlan for the     *)
+(* state before the call: Runge-Kutta stage times, the RK4 start-up and    *)
+(* closing steps of the multistep solvers with Adams' extra history        *)
+(* evaluations, the predictor evaluation, the implicit solves of BDF.      *)
+(*                                                                         *)
 (* The design state (time, dt, phase, k, hist, ...) is carried by the      *)
 (* specification; unlogged choices (accept / reject, grow) are chosen by   *)
 (* TLC among IvpProtocol's actions so that the successor agrees with the   *)
@@ -30,12 +37,15 @@ P == INSTANCE IvpProtocol WITH
        Plus <- FAdd, Minus <- FSub, Mul <- LAMBDA n, x : FMul(FOfInt(n), x), DivN <- LAMBDA x, n : FDiv(x, FOfInt(n)),
        Lt <- FLt, Le <- FLe,
        LtC <- LAMBDA a, b : FLt(a, FAdd(b, Slack(a, b))), LeC <- LAMBDA a, b : FLe(a, FAdd(b, Slack(a, b))),
-       Defects <- {}, KeepHistory <- FALSE
+       Defects <- {}, KeepHistory <- FALSE,
+       Frac <- LAMBDA n, d, x : FMul(FOfRat(n, d), x),
+       StagesOf <- LAMBDA c : IF c.solver = "rk23" THEN << <<0, 1>>, <<1, 2>>, <<3, 4>>, <<1, 1>> >>
+                              ELSE << <<0, 1>>, <<1, 4>>, <<3, 8>>, <<12, 13>>, <<1, 1>>, <<1, 2>> >>
 
 KindOf(solver) == CASE solver = "euler" -> "euler" [] solver \in {"rk45", "rk23"} -> "rk"
                     [] solver \in {"adams5", "adams3"} -> "adams" [] OTHER -> "bdf"
 HOf(solver) == CASE solver = "adams5" -> 4 [] solver = "adams3" -> 2 [] solver = "bdf6" -> 7 [] solver = "bdf2" -> 3 [] OTHER -> 0
-CfgOf(e) == [kind |-> KindOf(e.solver), h |-> HOf(e.solver), t0 |-> e.t0, t1 |-> e.t1, dtmin |-> e.dtmin, dtmax |-> e.dtmax,
+CfgOf(e) == [kind |-> KindOf(e.solver), solver |-> e.solver, h |-> HOf(e.solver), t0 |-> e.t0, t1 |-> e.t1, dtmin |-> e.dtmin, dtmax |-> e.dtmax,
              dt0 |-> IF e.solver = "euler" THEN e.dtmax ELSE FMul(FAdd(e.dtmax, e.dtmin), FHalf)]
 
 \* yield_memory -> phase (adams: O = h+1; bdf: O = h)
@@ -57,6 +67,18 @@ ObsAgrees(e) ==
     [] e.nxt = "redo" -> obs' = <<"redo">>
     [] e.nxt = "none" -> obs' = <<"none">>
     [] e.nxt = "err" -> obs'[1] = "err"
+
+\* the derivative evaluations recorded during this step() call are the ones the design plans for the state before
+\* it, time by time (a BDF trial step: any number >= 2 of evaluations, all at the new time).  Calls that ended in an
+\* error were cut short and are not compared.
+SameTimes(ts, plan, off) == \A q \in 1..Len(plan) : FEq(ts[off + q], plan[q])
+EvalsAgree(e) ==
+  IF ~e.has_evals \/ e.nxt = "err" THEN TRUE
+  ELSE LET p == P!EvalPlan
+           nf == Len(p.fixed)
+       IN /\ Len(e.ets) >= nf /\ SameTimes(e.ets, p.fixed, 0)
+          /\ IF p.tail = <<>> THEN Len(e.ets) = nf
+             ELSE Len(e.ets) >= nf + 2 /\ \A q \in (nf + 1)..Len(e.ets) : FEq(e.ets[q], p.tail[1])
 
 NextAgrees(e) ==
   e.has_next =>
@@ -81,6 +103,7 @@ Consume ==
             /\ saveTime' = e.t0 /\ noSent' = FALSE /\ stat' = "run" /\ obs' = <<"init">> /\ out' = <<>>
        [] e.ev = "snap" ->
             /\ Agrees(e)
+            /\ EvalsAgree(e)
             /\ IF e.nxt = "err" /\ e.errkind # "MinimumTimeDeltaExceeded"      \* failures raised below the stepper's protocol
                  THEN P!Faults /\ obs'[1] = "err"
                  ELSE /\ \E accept \in BOOLEAN, grow \in BOOLEAN, d2 \in NextDts(e) : P!StepActions(accept, grow, d2)
